@@ -382,7 +382,13 @@ class DefaultPredictionStrategy(object):
         if settings.skip_posterior_variances.on():
             return ZeroLinearOperator(*test_test_covar.size())
 
-        if settings.fast_pred_var.off():
+        # Handle NaNs: missing observations must not contribute to the posterior covariance either.
+        # (The precomputed covar_cache covers all training rows, so the exact solve is used in this case.)
+        nan_policy = settings.observation_nan_policy.value()
+        missing = torch.isnan(self.train_labels) if nan_policy != "ignore" else None
+        has_missing = missing is not None and bool(missing.any())
+
+        if settings.fast_pred_var.off() or has_missing:
             dist = self.train_prior_dist.__class__(
                 torch.zeros_like(self.train_prior_dist.mean), self.train_prior_dist.lazy_covariance_matrix
             )
@@ -392,6 +398,20 @@ class DefaultPredictionStrategy(object):
                 train_train_covar = self.likelihood(dist, self.train_inputs).lazy_covariance_matrix
 
             test_train_covar = to_dense(test_train_covar)
+            if has_missing and nan_policy == "mask":
+                # Restrict the train dimension to observed values, as _mean_cache / exact_predictive_mean do
+                observed = settings.observation_nan_policy._get_observed(
+                    self.train_labels, torch.Size((self.train_labels.shape[-1],))
+                ).reshape(-1)
+                train_train_covar = MaskedLinearOperator(train_train_covar.evaluate_kernel(), observed, observed)
+                test_train_covar = test_train_covar[..., observed]
+            elif has_missing:  # 'fill'
+                # Decouple the missing observations (zero rows/columns, diagonal kept) and ignore their columns
+                mask = (~missing).to(test_train_covar.dtype)
+                kernel_mask = mask[..., None] * mask[..., None, :]
+                torch.diagonal(kernel_mask, dim1=-2, dim2=-1)[...] = 1
+                train_train_covar = train_train_covar.evaluate_kernel() * kernel_mask
+                test_train_covar = test_train_covar * mask[..., None, :]
             train_test_covar = test_train_covar.transpose(-1, -2)
             covar_correction_rhs = train_train_covar.solve(train_test_covar)
             # For efficiency
